@@ -130,11 +130,14 @@ def peaky_numerators(rng, V, T, denom):
 
 
 def steer(rng, make, want, tries):
-    """Rejection sampling on the history class: draw with `make()` -> (case_payload, events) until an
-    event of `want` shows (at most `tries` draws); returns the last draw otherwise."""
-    last = None
+    """Rejection sampling on the history class: draw with `make()` -> (payload, events) until every class
+    of `want` shows (at most `tries` draws); otherwise the draw that showed most of them."""
+    best, score = None, -1
     for _ in range(tries):
-        last = make()
-        if last[1] & want:
-            return last
-    return last
+        cur = make()
+        k = len(cur[1] & want)
+        if k > score:
+            best, score = cur, k
+        if k == len(want):
+            break
+    return best
